@@ -163,6 +163,11 @@ pub fn decode_sitefree_case(tape: &[u8]) -> Value {
         4 => src.push_str(&format!("var long = '{}';\n", "x".repeat(3000))),
         _ => {}
     }
+    // a binding that happens to be called like the hook namespace (parameter, catch clause, destructured local) in code
+    // without any instrumented operation: the prologue of the file has to be there all the same
+    if t.chance(25) {
+        src.push_str(*t.pick(&["function shadows(_ddiast) { return 1; }\n", "try { null.x } catch (_ddiast) { }\n", "function shadows2(o) { const { p: _ddiast } = o; return 2; }\n"]));
+    }
     let tags: Vec<&str> = p.tags.iter().copied().collect();
     // sometimes a source-map reference (usable or not) with chaining on: the trailer must be there all the same
     let mut cfgj = cfg.json.clone();
@@ -780,6 +785,10 @@ impl Check for C13 {
             "new RegExp();", "new RegExp;", "require();", "new RegExp(...a);", "require(...a);", "RegExp();", "new RegExp(a, 'a flags literal longer than ten');",
             "String.prototype.concat.call();", "String.prototype.concat.apply();", "x?.();", "a?.concat?.()?.trim?.();", "a.concat.call(...b);", "`${a}`.concat();",
             "({}).substring.apply(a, [,]);", "aloneMethod();", "aloneMethod(...a);", "label: { break label; }", "delete a?.b.c;", "new.target;", "import.meta;",
+            // long identifiers with a multi-byte character at every byte offset from 8 to 31 (anything that cuts names at a
+            // computed byte offset, e.g. at the length of the reserved prefix, must respect character boundaries)
+            "var vvvvvvvñq = 1; var vvvvvvvvñq = 1; var vvvvvvvvvñq = 1; var vvvvvvvvvvñq = 1; var vvvvvvvvvvvñq = 1; var vvvvvvvvvvvvñq = 1; var vvvvvvvvvvvvvñq = 1; var vvvvvvvvvvvvvvñq = 1; var vvvvvvvvvvvvvvvñq = 1; var vvvvvvvvvvvvvvvvñq = 1; var vvvvvvvvvvvvvvvvvñq = 1; var vvvvvvvvvvvvvvvvvvñq = 1; var vvvvvvvvvvvvvvvvvvvñq = 1; var vvvvvvvvvvvvvvvvvvvvñq = 1; var vvvvvvvvvvvvvvvvvvvvvñq = 1; var vvvvvvvvvvvvvvvvvvvvvvñq = 1; var vvvvvvvvvvvvvvvvvvvvvvvñq = 1; var vvvvvvvvvvvvvvvvvvvvvvvvñq = 1; var vvvvvvvvvvvvvvvvvvvvvvvvvñq = 1; var vvvvvvvvvvvvvvvvvvvvvvvvvvñq = 1; var vvvvvvvvvvvvvvvvvvvvvvvvvvvñq = 1; var vvvvvvvvvvvvvvvvvvvvvvvvvvvvñq = 1; var vvvvvvvvvvvvvvvvvvvvvvvvvvvvvñq = 1; var vvvvvvvvvvvvvvvvvvvvvvvvvvvvvvñq = 1;",
+            "var wwwwwww日z = 1; var wwwwwwww日z = 1; var wwwwwwwww日z = 1; var wwwwwwwwww日z = 1; var wwwwwwwwwww日z = 1; var wwwwwwwwwwww日z = 1; var wwwwwwwwwwwww日z = 1; var wwwwwwwwwwwwww日z = 1; var wwwwwwwwwwwwwww日z = 1; var wwwwwwwwwwwwwwww日z = 1; var wwwwwwwwwwwwwwwww日z = 1; var wwwwwwwwwwwwwwwwww日z = 1; var wwwwwwwwwwwwwwwwwww日z = 1; var wwwwwwwwwwwwwwwwwwww日z = 1; var wwwwwwwwwwwwwwwwwwwww日z = 1; var wwwwwwwwwwwwwwwwwwwwww日z = 1; var wwwwwwwwwwwwwwwwwwwwwww日z = 1; var wwwwwwwwwwwwwwwwwwwwwwww日z = 1; var wwwwwwwwwwwwwwwwwwwwwwwww日z = 1; var wwwwwwwwwwwwwwwwwwwwwwwwww日z = 1; var wwwwwwwwwwwwwwwwwwwwwwwwwww日z = 1; var wwwwwwwwwwwwwwwwwwwwwwwwwwww日z = 1; var wwwwwwwwwwwwwwwwwwwwwwwwwwwww日z = 1; var wwwwwwwwwwwwwwwwwwwwwwwwwwwwww日z = 1;",
             // escapes that are only legal in tagged templates (no cooked value), with and without substitutions
             "String.raw`C:\\users\\bin`;", "h`\\xerox ${a} \\u{110000}`;", "h`\\unicode and a text that is longer than ten`;", "a.concat(h`\\01`);",
         ];
